@@ -12,6 +12,7 @@ import FeatModel.Lemmas.C19_csr
 import FeatModel.Lemmas.C19_dyn
 import FeatModel.Lemmas.C19_kernels
 import FeatModel.Lemmas.C19_layers
+import FeatModel.Lemmas.C19_mask
 import FeatModel.Lemmas.C19_perms
 import FeatModel.Lemmas.C19_perms2
 import FeatModel.Lemmas.C19_renders
@@ -42,6 +43,11 @@ Remaining hypotheses of the C19 theorems and why they stay (everything else was 
   (`dyn_insert_spec`, `dyn_erase_spec`, `dyn_ofAdjactor*_spec`, `dyn_compose_spec`).
 * index-range hypotheses (`i < g.nImg`, `i < g.nDom`, `hj : j < col.length`, `h : c ∈ col → c < nc`): the quantifier
   range of the statement (rows that exist / colours that are below `num_colors`).
+* MODELLING ASSUMPTION: `Index` and the element type of the duplicate mask (`std::vector<char>`) are modelled unbounded
+  (Nat / Bool). The kernels are proved for every mask element type with two distinct values (`walkM_spec`,
+  `walk_is_walkM`); `walkTag_narrow_fails` shows what a `w`-bit tag compared against a full-width index does from node
+  `2^w - 1` on. C++ narrowing is invisible to the model, so the correspondence stream `large` crosses the
+  2^7 / 2^8 (quick) and 2^15 / 2^16 (thorough) node-count boundaries with duplicates in the last rows.
 * `compositeIterator_spec` / `_empty_head` describe the pre-1c006df21 begin constructor; the current one is
   `compositeIterator_fixed_spec` (no hypothesis).
 Per theorem (hypothesis binders as written below):
@@ -108,6 +114,10 @@ Per theorem (hypothesis binders as written below):
 * `cm_reverse_exact`: hsq, hwf, hn, h
 * `blocked_apply_spec`: h, hs
 * `indexSetPermute_is_graph_permuted`: none
+* `walkM_spec`: hne, hA, hm, hr
+* `walk_is_walkM`: none
+* `walkTag_narrow_fails`: h, hv, hm
+* `walkTag_wide_ok`: hA, hw, hm, hr
 -/
 open FeatModel.Adj
 
@@ -446,3 +456,26 @@ theorem C19.blocked_apply_spec (p s : List Nat) (h : Perm.isBijection p = true) 
 theorem C19.indexSetPermute_is_graph_permuted (p q : List Nat) (tuples : List (List Nat)) (nImg : Nat) :
     Perm.indexSetPermute p q tuples = (Graph.permuted ⟨nImg, tuples⟩ p q).adj :=
   C19L.blk.indexSetPermute_is_graph_permuted p q tuples nImg
+
+theorem C19.walkM_spec {σ μ : Type} [DecidableEq μ] (off on : μ) (hne : off ≠ on) (A : Adjactor) (hA : A.Lawful)
+    (i : Nat) (f : σ → Nat → σ) (s : σ) (m : Array μ) (hm : ∀ k, m.getD k off = off)
+    (hr : ∀ v, v ∈ A.images i → v < m.size) :
+    Kern.walkM off on A i f (s, m) = ((Graph.dedup (A.images i)).foldl f s, m) :=
+  C19L.mask.walkM_spec off on hne A hA i f s m hm hr
+
+theorem C19.walk_is_walkM {σ : Type} (A : Adjactor) (i : Nat) (f : σ → Nat → σ) (st : σ × Kern.Mask) :
+    Kern.walk A true i f st = Kern.walkM false true A i f st :=
+  C19L.mask.walk_is_walkM A i f st
+
+theorem C19.walkTag_narrow_fails (w i v : Nat) (h : 2 ^ w ≤ i + 1) (m : Array Nat) (hv : v < m.size)
+    (hm : m.getD v 0 ≠ i + 1) :
+    (Kern.walkTag w (Adjactor.ofGraph ⟨m.size, List.replicate i [] ++ [[v, v]]⟩) i
+      (fun (l : List Nat) k => l ++ [k]) ([], m)).1 = [v, v] ∧
+    Graph.dedup [v, v] = [v] :=
+  C19L.mask.walkTag_narrow_fails w i v h m hv hm
+
+theorem C19.walkTag_wide_ok {σ : Type} (w : Nat) (A : Adjactor) (hA : A.Lawful) (i : Nat) (hw : i + 1 < 2 ^ w)
+    (f : σ → Nat → σ) (s : σ) (m : Array Nat) (hm : ∀ k, m.getD k 0 ≠ i + 1)
+    (hr : ∀ v, v ∈ A.images i → v < m.size) :
+    (Kern.walkTag w A i f (s, m)).1 = (Graph.dedup (A.images i)).foldl f s :=
+  C19L.mask.walkTag_wide_ok w A hA i hw f s m hm hr
